@@ -133,6 +133,59 @@ impl Sim {
 		Some(self.pays.len() - 1)
 	}
 
+	/// One payment in several parts over explicit single-channel paths (channel index, amount, final CLTV delta per
+	/// part) from `from` to its direct peer.
+	pub fn send_custom_mpp(&mut self, from: usize, parts: &[(usize, u64, u32)]) -> Option<usize> {
+		use lightning::routing::router::{PaymentParameters, Route, RouteParameters};
+		let total: u64 = parts.iter().map(|p| p.1).sum();
+		let mut paths = vec![];
+		let mut to = 0;
+		let mut nodes0 = vec![];
+		for (chan, amt, fd) in parts.iter() {
+			let (route, nodes) = self.build_route(from, &[*chan], *amt, *fd)?;
+			to = *nodes.last().unwrap();
+			if nodes0.is_empty() {
+				nodes0 = nodes;
+			}
+			paths.extend(route.paths);
+		}
+		let payee = self.w.node_id(to);
+		let mut route_params = RouteParameters::from_payment_params_and_value(PaymentParameters::from_node_id(payee, parts[0].2), total);
+		route_params.max_total_routing_fee_msat = None;
+		route_params.payment_params.max_total_cltv_expiry_delta = u32::MAX;
+		let route = Route { paths, route_params };
+		let (preimage, hash, secret) = get_payment_preimage_hash(&self.w.nodes[to], None, None);
+		let idn = self.next_payment_id;
+		self.next_payment_id += 1;
+		let mut idb = [0u8; 32];
+		idb[..8].copy_from_slice(&idn.to_be_bytes());
+		let id = PaymentId(idb);
+		let res = self.w.nodes[from].node.send_payment_with_route(route, hash, RecipientOnionFields::secret_only(secret, total), id);
+		let ok = res.is_ok();
+		self.rec(SEvent::Api { node: from, what: format!("send-mpp pay#{} parts={:?}", self.pays.len(), parts), ok, detail: format!("{:?}", res) });
+		self.pays.push(PayInfo {
+			idx: self.pays.len(),
+			from,
+			to,
+			path_nodes: nodes0,
+			path_chans: vec![parts[0].0],
+			amt_msat: total,
+			cltv_expiry: self.height_of(from) + 1 + parts.iter().map(|p| p.2).min().unwrap_or(0),
+			hash,
+			preimage,
+			secret,
+			id,
+			state: if ok { PayState::Sent } else { PayState::Refused },
+			claimable_seen: false,
+			claimed_event: false,
+			sent_event: false,
+			failed_event: false,
+		});
+		self.w.nodes[from].chain_monitor.added_monitors.lock().unwrap().clear();
+		self.drain(from);
+		Some(self.pays.len() - 1)
+	}
+
 	/// Mine one block with `txs` on the global chain and hand it to the listed nodes only (the others fall
 	/// behind until `catch_up`).
 	pub fn mine_for(&mut self, txs: Vec<Transaction>, nodes: &[usize]) -> Vec<(Txid, crate::chain::Reject)> {
